@@ -117,20 +117,28 @@ PROPS = {
         "undecided": [],
     },
     "C10": {
-        "units": ["U8_entry_readers"],
+        "units": ["U8_entry_readers", "U12_extract"],
         "kani": [],
-        "technique": "Verus contracts on read_zipfile_from_stream and the drain loop of Drop for ZipFile against the APPNOTE local-header decode",
+        "technique": "Verus contracts on read_zipfile_from_stream, the visitor loop and the drain loop of Drop for ZipFile against the APPNOTE local-header decode",
         "level_text": "Deductive proof that the streaming reader answers end-of-entries exactly at a central-directory signature, decodes a local header per APPNOTE 4.3.7 (name by the UTF-8 flag, sizes through the same ZIP64 extra-field walk as the seekable reader, DOS time, method), refuses encrypted and data-descriptor entries with an error, bounds the content by the declared compressed size at the offset after name and extra field, wraps it in the CRC-checking stack, and that dropping an entry drains the underlying stream to exactly the end of its compressed data (limit reaches 0) however much was consumed and however the source splits its reads, unless the source ends or faults.",
-        "level_note": "agreement with the seekable reader is through the shared spec functions (dec_lfh / dec_cdh agree on the fields the writer duplicates: C02); the visitor loop of ZipStreamReader::visit (unit U12) is not under contract yet; Drop::drop is verified as an inherent method with the representation invariant as precondition (T14)",
-        "undecided": ["ZipStreamReader::visit: files then one metadata callback per central record, in order (unit U12)"],
+        "level_note": "agreement with the seekable reader is through the shared spec functions (dec_lfh / dec_cdh agree on the fields the writer duplicates: C02); ZipStreamReader::visit (unit U12): for a visitor that logs its callbacks, the log of one visit is files first, then at least one metadata record (the repaired never-invoked-callback defect is pinned by this clause), and the first central record is parsed without re-reading the signature the entry loop consumed; partial correctness only for the two visit loops (they end when the stream does; no decreases clause); Drop::drop is verified as an inherent method with the representation invariant as precondition (T14)",
+        "undecided": ["the number of metadata callbacks equals the number of entries, in the same order (needs a parse-level spec of the whole stream)", "termination of the two loops of visit (bounded by the stream length; the implicit drop of each entry between iterations is outside the loop body Verus sees)"],
     },
     "C06": {
-        "units": ["U3_paths"],
+        "units": ["U3_paths", "U12_extract"],
         "kani": [],
         "technique": "Verus contract on the real enclosed_name over an uninterpreted component walk + containment lemma",
         "level_text": "Deductive proof for every entry name and for ANY behaviour of std::path::Components (left uninterpreted): enclosed_name returns Some exactly when the name has no NUL, no prefix/root component and its running depth never goes negative, and then returns the name itself; a checked lemma shows that such a component list joined onto any base directory keeps that base as a prefix at every step of lexical resolution.",
-        "level_note": "std::path is assumed only to the extent that Path::new(name).components() yields some component sequence; mangled_name (file_name_sanitized: find/replace/filter/fold over std iterator adapters) is not under contract and is listed as undecided; delegating accessors in read.rs are checked in unit U8",
-        "undecided": ["mangled_name / file_name_sanitized (std iterator adapters and string slicing; DESIGN.md section 5 C06)", "ZipFile::enclosed_name / mangled_name delegation (unit U8)"],
+        "level_note": "std::path is assumed only to the extent that Path::new(name).components() yields some component sequence; mangled_name (file_name_sanitized: find/replace/filter/fold over std iterator adapters) is not under contract and is listed as undecided; ZipFile::enclosed_name and ZipStreamFileMetadata::enclosed_name delegation is proved in unit U12",
+        "undecided": ["mangled_name / file_name_sanitized (std iterator adapters and string slicing; DESIGN.md section 5 C06)", "ZipFile::mangled_name delegation"],
+    },
+    "C07": {
+        "units": ["U3_paths", "U12_extract"],
+        "kani": [],
+        "technique": "Verus contracts: every filesystem call of both extract() bodies must discharge a confinement precondition stated on the std::fs shims",
+        "level_text": "Deductive proof for every archive and every entry name (the component walk of std::path is left uninterpreted): in ZipArchive::extract and in the visitor of ZipStreamReader::extract, every call of fs::create_dir_all, fs::File::create and fs::set_permissions is made on a path that is the target directory joined with a name accepted by enclosed_name (or the lexical parent of such a path), which the containment lemma of unit U3 shows stays inside the target at every step of resolution; an entry whose name is unsafe makes extract return an error before any filesystem call for that entry; directories are decided by the trailing slash and the mode is applied after the content is written, with exactly the recorded unix_mode().",
+        "level_note": "std::fs is a contract-only shim (shims/fs.rs): the confinement is a PRECONDITION of those shims, so a call on an unvalidated path fails verification; symlink resolution by the operating system is outside the lexical model (the crate creates no symlinks while extracting, a pre-existing symlink inside the target is followed); io::copy is an assumed contract; the 'reproduces the tree byte-for-byte' half depends on the filesystem's behaviour and on the decoders and is not decided",
+        "undecided": ["for safe and consistent names the directory afterwards contains exactly the archive's tree with identical contents and modes (filesystem semantics + decoders: not expressible as a contract on this code)", "pre-existing symlinks inside the target directory"],
     },
     "C18": {
         "units": [],
